@@ -318,6 +318,102 @@ pub fn run_c07_raw(case: &Case) -> Outcome {
     o
 }
 
+
+/// A request whose caller gave up (future dropped, as a caller with a timeout does) after its Connect / Bind went out: the id is
+/// still in use until the peer has answered - a peer Connect on it must be refused -, the peer's answer (a perfectly valid
+/// Acknowledge / Finish / Reset) must not disturb anything else, and the id is free again afterwards.
+pub const CANCELLED_REQUEST_CASES: u64 = 2 * 3 * 2;
+pub fn cancelled_request_case(i: u64) -> Case {
+            let bind = i % 2 == 1;
+            let answer = (i / 2) % 3; // the peer's late answer to the abandoned request: 0 Acknowledge/Finish (accept), 1 Reset, 2 none
+            let late_open = (i / 6) % 2 == 1;
+            let id = 0x21u32;
+            let mut events = vec![RawEvent { when: Trigger::Quiescent, what: What::Wake(5) }];
+            let inject = |events: &mut Vec<RawEvent>, msg: RawMsg| events.push(RawEvent { when: Trigger::Quiescent, what: What::Inject { from: 1, msg } });
+            // the collision: the peer proposes the id of the abandoned request
+            inject(&mut events, RawMsg::Connect { id, rwnd: 4, port: 9, host: b"evil".to_vec() });
+            match (answer, bind) {
+                (0, false) => inject(&mut events, RawMsg::Ack { id, n: 4 }),
+                (0, true) => inject(&mut events, RawMsg::Finish { id }),
+                (1, _) => inject(&mut events, RawMsg::Reset { id }),
+                _ => {}
+            }
+            if answer != 2 {
+                // once the peer has answered, nobody holds the id any more
+                inject(&mut events, RawMsg::Connect { id, rwnd: 4, port: 9, host: b"probe".to_vec() });
+            }
+            if late_open {
+                events.push(RawEvent { when: Trigger::Quiescent, what: What::Wake(2) });
+            }
+            let mut streams = vec![];
+            let mut binds = vec![];
+            if bind {
+                binds.push(BindSpec { side: 0, dgram: false, host: b"x".to_vec(), port: 3, delay: 0 });
+            } else {
+                streams.push(StreamSpec { side: 0, port: 1, pad: vec![], delay: 0, park: None, cancel: Some(5), ends: [EndScript::default(), EndScript::default()] });
+            }
+            // a later local request (fresh id from the seeded generator) must still work
+            streams.push(StreamSpec { side: 0, port: 1, pad: vec![], delay: 0, park: Some(2), cancel: None, ends: [EndScript { w: vec![WOp::Write(1)], r: vec![] }, EndScript::default()] });
+            Case {
+                opts: [OptsSpec { retries: 1, ..OptsSpec::default() }, OptsSpec::default()],
+                rng: [vec![id], vec![]],
+                streams,
+                binds,
+                bind_cancel: if bind { Some(5) } else { None },
+                raw: Some(RawPolicy { reject_first: 0, ack_connects: Some(4), ack_every: Some(1), answer_close: true, no_ack_streams: if bind { vec![] } else { vec![0] } }),
+                events,
+                ..Case::default()
+            }
+        }
+
+pub fn run_cancelled_request(case: &Case) -> Outcome {
+            let run = run_case(case);
+            if !run.quiescent {
+                return inconclusive(&run);
+            }
+            let a = Analysis::new(case, &run);
+            let id = 0x21u32;
+            let bind = !case.binds.is_empty();
+            // the abandoned request must have used the scripted id
+            let used = run.events.iter().any(|e| matches!(&e.ev, Ev::Sent { side: 0, msg: WMsg::Frame(RFrame::Connect { id: i, .. } | RFrame::Bind { id: i, .. }), .. } if *i == id));
+            if !used {
+                return Outcome::inconclusive("harness: the request did not go out with the scripted id");
+            }
+            let connects: Vec<usize> = run.events.iter().enumerate().filter(|(_, e)| matches!(&e.ev, Ev::Recv { side: 0, msg: WMsg::Frame(RFrame::Connect { id: i, .. }) } if *i == id)).map(|x| x.0).collect();
+            let answer_to = |p: usize, until: usize| {
+                run.events[p..until].iter().find_map(|e| match &e.ev {
+                    Ev::Sent { side: 0, msg: WMsg::Frame(RFrame::Reset { id: r }), .. } if *r == id => Some("reset"),
+                    Ev::Sent { side: 0, msg: WMsg::Frame(RFrame::Acknowledge { id: r, .. }), .. } if *r == id => Some("ack"),
+                    _ => None,
+                })
+            };
+            let what = if bind { "bind request" } else { "stream request" };
+            let Some(&c0) = connects.first() else { return Outcome::inconclusive("collision Connect not delivered") };
+            let next = connects.get(1).copied().unwrap_or(run.events.len());
+            match answer_to(c0, next) {
+                Some("reset") => {}
+                other => viol!(a, format!("c07-abandoned-request-id-taken:{}", if bind { "bind" } else { "stream" }), "the caller of a {what} on flow {id:08x} gave up before the peer answered; the request is still outstanding on the wire, yet a peer Connect on that id was answered with {other:?} instead of Reset"),
+            }
+            let accepted_evil = run.app_events().any(|(_, e)| matches!(e, AppEv::Accepted { host, .. } if host == b"evil"));
+            if accepted_evil {
+                viol!(a, "c07-abandoned-request-id-taken:accepted", "a stream was handed to the accepting application for a Connect on the id of an outstanding {what}");
+            }
+            if let Some(&c1) = connects.get(1) {
+                if answer_to(c1, run.events.len()) != Some("ack") {
+                    viol!(a, format!("c07-abandoned-request-slot-leak:{}", if bind { "bind" } else { "stream" }), "the peer answered the abandoned {what} on flow {id:08x}; afterwards nobody holds the id, but a new Connect on it was not acknowledged");
+                }
+            }
+            // the later local request works
+            let late = a.streams.len() - 1;
+            if case.streams[late].park.is_some() && case.events.iter().any(|e| matches!(e.what, What::Wake(2))) && a.streams[late].open_ok_at.is_none() {
+                viol!(a, "c07-open-stuck", "a later stream request did not complete: {:?}", a.streams[late].open_err);
+            }
+            if run.events.iter().any(|e| matches!(&e.ev, Ev::TaskExit { side: 0, .. })) {
+                viol!(a, "c07-connection-ended", "the connection task ended");
+            }
+            Outcome::pass(true, vec![if bind { "cancelled-bind-request" } else { "cancelled-stream-request" }])
+        }
+
 pub fn c07(ctx: &Ctx, rep: &mut Report) {
     rep.rule = "concurrent opens from both sides with arbitrary host bytes (0..300) and ports, max_flow_id_retries 1..4, scripted id sequences over {0,1,2,3} (collisions with live flows - established streams, pending stream requests and pending bind requests -, with the peer's simultaneous choice, id 0); \
                 a raw peer that rejects the first k Connects and injects Connects with id 0 / live ids; a non-reading-peer family for the initial credit (all 64 pairs of windows 1..64, and windows 300/1000/4097/10000/65535/65536/65537/70000 advertised by the opener or by the acceptor). Oracle: one request = one accepted stream with exactly the requested host/port, \
@@ -368,6 +464,9 @@ pub fn c07(ctx: &Ctx, rep: &mut Report) {
             o
         },
     );
+    // a request whose caller gave up (future dropped, as a caller with a timeout does) after its Connect / Bind went out: the id
+    // is still in use until the peer has answered - a peer Connect on it must be refused - and free again afterwards
+    ctx.enumerate(rep, "cancelled-request", CANCELLED_REQUEST_CASES, 6, cancelled_request_case, run_cancelled_request);
     ctx.enumerate(
         rep,
         "initial-credit",
